@@ -536,7 +536,8 @@ theorem leAll_take_iff (p q : Pt) (k : Nat) (h : p.length = q.length) :
 theorem domK_iff (U : Array Pt) (k i j : Nat) (hlen : (U.getD i []).length = (U.getD j []).length) :
     (domK U k i j = .lhsDominates ↔ ltK U k i j) ∧
     ((domK U k i j = .lhsDominates ∨ domK U k i j = .equivalent) ↔ leK U k i j) := by
-  have hl : ((U.getD i []).take k).length = ((U.getD j []).take k).length := by simp [hlen]
+  have hl : ((U.getD i []).take k).length = ((U.getD j []).take k).length := by
+    rw [List.length_take, List.length_take, hlen]
   obtain ⟨d1, _, d3, _⟩ := dominance_iff _ _ hl
   have e1 : leK U k i j ↔ leAll ((U.getD i []).take k) ((U.getD j []).take k) = true :=
     (leAll_take_iff _ _ k hlen).symm
@@ -553,7 +554,7 @@ theorem domK_iff (U : Array Pt) (k i j : Nat) (hlen : (U.getD i []).length = (U.
       · rw [h]; exact leAll_refl _
     · intro h
       cases h' : leAll ((U.getD j []).take k) ((U.getD i []).take k) with
-      | false => left; simp [h]
+      | false => left; rw [h]; rfl
       | true => right; exact leAll_antisymm h h'
 
 /-- postcondition of `ndHelperB(L, H, k)`: only `H` changes, and every `h ∈ H` is raised to one plus
@@ -676,7 +677,7 @@ theorem advance_spec (U : Array Pt) (frt cur : Frt) (h : Nat) : ∀ (Lr C : List
   induction Lr with
   | nil =>
     intro C T _ hT
-    exact ⟨[], rfl, fun _ hl => nomatch hl, fun l hl => by simp [sweepBAdvance] at hl,
+    exact ⟨[], rfl, (fun _ hl => nomatch hl), (fun l hl => by simp [sweepBAdvance] at hl),
       by simpa [sweepBAdvance] using hT⟩
   | cons l ls ih =>
     intro C T hfr hT
@@ -691,7 +692,7 @@ theorem advance_spec (U : Array Pt) (frt cur : Frt) (h : Nat) : ∀ (Lr C : List
       · rw [e]; exact hle
       · exact e2 x hx
     · rw [sweepBAdvance_stop hle]
-      refine ⟨[], rfl, fun _ hl => nomatch hl, fun x hx => ?_, by simpa using hT⟩
+      refine ⟨[], rfl, (fun _ hl => nomatch hl), fun x hx => ?_, by simpa using hT⟩
       have : l = x := by simpa using hx
       rw [← this]; exact hle
 
@@ -757,7 +758,7 @@ theorem SwB.step {U : Array Pt} {frt : Frt} {L HP Hrem : List Nat} {st : List Na
       sup L (fun l => leK U 2 l h) (fr frt) := by
     apply sup_congr
     · intro l hl hp
-      refine ⟨by rw [eL']; simp [hl], ?_, rfl⟩
+      refine ⟨by rw [eL']; exact List.mem_append_left _ hl, ?_, rfl⟩
       rw [leK_two]
       have := hCD l hl; unfold lexLe2 at this; omega
     · intro l hl hp
@@ -820,11 +821,13 @@ theorem sweepB_BSpec (U : Array Pt) (L H : List Nat) (frt : Frt) (hL : L.Pairwis
     (hHpw : H.Pairwise (lexLe2 U)) (hnd : H.Nodup)
     (hH : ∀ h ∈ H, h < frt.size ∧ 1 ≤ fr frt h ∧ h ∉ L) : BSpec U 2 L H frt (sweepB U L H frt) := by
   have h0 : SwB U frt L [] H (L, [], frt) :=
-    ⟨rfl, fun _ _ => rfl, fun _ h => nomatch h, ⟨[], rfl, fun _ h => nomatch h, TInv.nil _ _⟩⟩
+    ⟨rfl, fun _ _ => rfl, (fun _ h => nomatch h), ⟨[], rfl, (fun _ h => nomatch h), TInv.nil _ _⟩⟩
   have := sweepB_fold hL H [] _ h0 (fun h hh => by
     obtain ⟨a, b, c⟩ := hH h hh
-    exact ⟨a, b, c, fun hm => nomatch hm⟩) (fun _ _ hm => nomatch hm) hHpw hnd
-  exact ⟨this.size, by simpa using this.out, by simpa using this.val⟩
+    exact ⟨a, b, c, (fun hm => nomatch hm)⟩) (fun _ _ hm => nomatch hm) hHpw hnd
+  have e : [] ++ H = H := List.nil_append H
+  rw [e] at this
+  exact ⟨this.size, this.out, this.val⟩
 
 /-! ### (d) the brute-force base case of ndHelperB -/
 
@@ -876,7 +879,7 @@ theorem brute_fold (L : List Nat) (c : Nat → Nat → Bool) : ∀ (H : List Nat
       max (fr cur h) (1 + sup L (fun l => c l h = true) (fr cur)) := by
   intro H
   induction H with
-  | nil => intro cur _; exact ⟨rfl, fun _ _ => rfl, fun _ h => nomatch h⟩
+  | nil => intro cur _; exact ⟨rfl, fun _ _ => rfl, (fun _ h => nomatch h)⟩
   | cons h H ih =>
     intro cur hH
     obtain ⟨a1, a2, a3⟩ := hH h (by simp)
